@@ -46,10 +46,13 @@ BasicSpelling(h) ==
     [] h.kind \in {"lower", "upper", "twospace"} -> "lenient"
     [] OTHER -> "other"
 
-\* outcomes: "ran" = the protected handler ran; "challenge" = not run, 401, WWW-Authenticate starting with Basic
+\* outcomes: "ran" = the protected handler ran; "challenge" = not run, 401, WWW-Authenticate starting with Basic;
+\* "bad-request" = not run, 400: allowed only for a header value that is not text at all (raw non-UTF-8 bytes in the
+\* field value): the HTTP layer may refuse such a request before any fang sees it (C02), the fang may also challenge it
 AllowedBasic(pairs, h) ==
   LET sp == BasicSpelling(h) IN
-  IF CredOK(pairs, h.cred) /\ sp = "exact" THEN {"ran"}
+  IF h.kind = "rawff" THEN {"challenge", "bad-request"}
+  ELSE IF CredOK(pairs, h.cred) /\ sp = "exact" THEN {"ran"}
   ELSE IF CredOK(pairs, h.cred) /\ sp = "lenient" THEN {"ran", "challenge"}
   ELSE {"challenge"}
 
